@@ -1,14 +1,15 @@
-"""C18 — names in a memory map are unique and prefix-free"""
+"""C18 — names in a memory map are unique and prefix-free; conflicts are refused"""
 from .. import lib, runner
+from ..mm import mask_names
 
 PROP = "C18"
-THEOREMS = ["RangeMap.overlaps_exact", "RangeMap.insert_inv", "RangeMap.get_exact"]
+THEOREMS = ["Names.conflictLoop_iff_prefix"]
 IMPORTS = ["SocVerif"]
 
 
 def nontrivial(r):
     s = r["stats"]
-    return s["refused"] >= 1 and s["inserted_not_last"] >= 1
+    return s["conf_eq"] >= 1 and s["conf_prefix"] >= 1 and s["conf_ext"] >= 1 and s["absorb"] >= 1
 
 
 def sample(r):
@@ -17,15 +18,15 @@ def sample(r):
 
 def run(rep, tier):
     lib.proof_gate(rep, PROP, THEOREMS, IMPORTS)
-    n = 400 if tier == "quick" else 40000
+    n = 500 if tier == "quick" else 50000
     agg = runner.correspondence(rep, prop=PROP, mod_name="harness.mm", driver_kind="mmap", ncases=n,
                                 extra=("names",), nontrivial=nontrivial, oracle_props={"C18"},
-                                sample_fmt=sample)
+                                sample_fmt=sample, mask_model=mask_names)
     rep.coverage.update(agg)
-    rep.coverage["rule"] = ("generated API histories on real MemoryMap objects (add_resource/add_window/align_to/"
-                            "freeze/hand-off, valid and invalid arguments, nested children); after every call the "
-                            "answer, resources(), windows() and a cursor probe are compared with the Lean model and "
-                            "the property's clauses are evaluated on the real answers; non-trivial = history with "
-                            ">=1 refusal and >=1 insertion that is not at the end of the range list; distinct = "
-                            "distinct protocol transcripts")
-    rep.assumptions += ["bool name parts (True == 1) and maps containing themselves are outside the generator"]
+    rep.coverage["rule"] = ("histories of add_resource/add_window (named and anonymous, nested) with names drawn from the "
+                            "adversarial alphabet {'a','b','0',0,1} (lengths 1-4) on real maps with roomy address spaces "
+                            "(so that only naming decides acceptance); accept/refuse of every call and the final path list "
+                            "are compared with the Lean model, and 'accepted iff unrelated to every visible name' is "
+                            "evaluated on the real answers; non-trivial = history containing an equal-name, a prefix and an "
+                            "extension conflict and an anonymous-window absorption")
+    rep.assumptions += ["bool name parts (True == 1 in Python) are outside the generator and not modelled"]
